@@ -24,6 +24,7 @@ EXPLANATION = (
     "(R6) the partial-state attribute has the same name at the writer and the reader; (R7) a PAUSED nested result is never consumed as data: the map "
     "branch and the sync runner are guarded by an interrupt-reachability predicate that is closed under nesting. (R8) the PauseExecution handler of run() filters the values computed before the pause with the non-raising default policy, so a pause always yields the PAUSED result. R4 also requires that the 'None means pause' test is applied to the handler's resolved answer (awaited when awaitable on every path before it is compared); (R9) the pause description is built in the graph's name space (qualifier inference over the interrupt executor)."
     " R4 also requires that under 'exactly one data output' the function turning the handler's response into outputs reaches no raise and returns {output: response} verbatim — the resume path stores the supplied value as it is, so a dict answer is an answer, not a name-to-value mapping. (R10) in the interrupt-capable superstep the node cache is consulted and written only outside the executor's resume condition (every data output present in state.values, node not executed, interrupt nodes only): a supplied response is neither shadowed by a cached one nor stored as one."
+    " (R11) storing the object that is already stored under a name never advances its version (under 'old is new' no version write is reachable in update_value): a resumed interrupt re-emits the caller's own object."
 )
 NOT_DECIDED = "That pause followed by resume ends exactly as the auto-resolved run (a statement about computed values and histories); ordering of several interrupts beyond 'one per step'."
 
@@ -528,4 +529,5 @@ VARIANTS = [
     Variant("resume-consults-cache", AS, replace_once("        if cache is not None and not is_resuming_interrupt(node, state):", "        if cache is not None:"), {"C14.R10"}),
     Variant("resume-bypass-ignores-executions", "src/hypergraph/runners/_shared/caching.py", replace_once("    return node.is_interrupt and node.name not in state.node_executions and all(o in state.values for o in node.data_outputs)", "    return node.is_interrupt and all(o in state.values for o in node.data_outputs)"), {"C14.R10"}),
     Variant("twin-resume-bypass-inline", AS, replace_once("        if cache is not None and not is_resuming_interrupt(node, state):", "        resuming = is_resuming_interrupt(node, state)\n        if cache is not None and not resuming:"), set()),
+    Variant("restore-same-object-bumps-version", TY, replace_once("        elif old_value is value:\n", "        elif False:\n"), {"C14.R11"}),
 ]
